@@ -2072,6 +2072,160 @@ pub fn check_c17(ix: &Ix<'_>, v: &mut Vec<Violation>) {
     }
 }
 
+
+// ------------------------------------------------------------------------------------------
+// C20: idle and too-slow peers are timed out, live peers are not (1 s grid, 1 s slack)
+
+pub fn check_c20(ix: &Ix<'_>, v: &mut Vec<Violation>) {
+    let role = ix.role();
+    let out = ix.out;
+    if out.budget_hit || out.panic.is_some() {
+        return;
+    }
+    let conn = 0usize;
+    let t_of = |seq: u64| -> u64 { out.hist.iter().find(|e| e.seq >= seq).map_or(0, |e| e.t_ms) };
+    let end_ms = out.hist.iter().filter(|e| ix.settle_seq.is_none_or(|s| e.seq <= s)).map(|e| e.t_ms).max().unwrap_or(0);
+    let mode = out.plan.tags.iter().find_map(|t| t.strip_prefix("mode:")).unwrap_or("");
+    let stop = ix.stops.iter().find(|s| s.1 == conn);
+    let stop_ms = stop.map(|s| t_of(s.0));
+    let ka_stop = stop.filter(|s| matches!(&s.2, StopClass::Protocol(m) if m.contains("KeepAliveTimeout")));
+    let rd_stop = stop.filter(|s| matches!(&s.2, StopClass::Protocol(m) if m.contains("ReadTimeout")));
+    let session_ms = ix.sessions.iter().find(|s| s.1 == conn).map(|s| t_of(s.0));
+    // arrival times of complete packets (delivery of their last byte), after the handshake
+    let mut arrivals: Vec<u64> = ix
+        .sent
+        .iter()
+        .filter(|s| s.conn == conn && s.pkt.is_some() && !matches!(s.pkt, Some(Pkt::Connect(_) | Pkt::ConnAck(_))))
+        .filter_map(|s| s.delivered.map(t_of))
+        .collect();
+    if let Some(t0) = session_ms {
+        arrivals.push(t0);
+    }
+    arrivals.sort_unstable();
+
+    match mode {
+        "keepalive" => {
+            let ka = u64::from(out.plan.peer.connect.keep_alive);
+            let t_eff: Option<u64> = match out.plan.cfg.hs_keepalive {
+                Some(k) => Some(u64::from(k) * 1000),
+                None if ka != 0 => Some((ka + ka / 2) * 1000),
+                None => None,
+            };
+            if let Some((sq, _, _)) = ka_stop {
+                let ts = t_of(*sq);
+                let last = arrivals.iter().copied().filter(|a| *a <= ts).max().unwrap_or(0);
+                match t_eff {
+                    None => viol(v, "C20", format!("C20/keepalive-timeout-while-disabled/{role}"), format!("keep-alive 0 and no server override, yet the connection was ended by a keep-alive timeout at {ts} ms"), *sq),
+                    Some(t) => {
+                        if ts - last + 1000 < t {
+                            viol(v, "C20", format!("C20/live-peer-timed-out/{role}"), format!("keep-alive timeout at {ts} ms, but a complete packet had arrived at {last} ms (timeout in force {t} ms)"), *sq);
+                        }
+                    }
+                }
+                if ix.ver == Ver::V5 && !ix.eps.iter().any(|e| e.conn == conn && matches!(&e.pkt, Pkt::Disconnect(d) if d.code == 0x8d)) && ix.settle_seq.is_some() {
+                    viol(v, "C20", format!("C20/keepalive-timeout-without-0x8d/{role}"), "keep-alive timeout on an MQTT 5 connection but no DISCONNECT 0x8D was written".into(), *sq);
+                }
+            }
+            if let (Some(t), Some(_)) = (t_eff, session_ms) {
+                // every silence longer than the timeout (plus slack) must have ended the connection
+                let mut pts = arrivals.clone();
+                pts.push(end_ms);
+                for w in pts.windows(2) {
+                    if w[1] - w[0] > t + 2000 {
+                        let ended_in_time = stop_ms.is_some_and(|s| s <= w[0] + t + 2000) || ix.conn_done.iter().any(|c| c.1 == conn && t_of(c.0) <= w[0] + t + 2000);
+                        if !ended_in_time {
+                            viol(v, "C20", format!("C20/idle-peer-not-timed-out/{role}"), format!("no complete packet between {} ms and {} ms (keep-alive timeout in force {t} ms) and the connection was not ended", w[0], w[1]), ix.last_seq);
+                        } else if stop_ms.is_some_and(|s| s <= w[0] + t + 2000 && s > w[0]) && ka_stop.is_none() && rd_stop.is_none() {
+                            viol(v, "C20", format!("C20/idle-timeout-wrong-reason/{role}"), format!("idle connection was ended with {:?} instead of a keep-alive timeout", stop.map(|s| &s.2)), stop.map_or(0, |s| s.0));
+                        }
+                        break;
+                    }
+                }
+            }
+        }
+        "read-rate" => {
+            let Some((timeout, _max, _rate)) = out.plan.cfg.frame_read_rate else { return };
+            let timeout = u64::from(timeout) * 1000;
+            // byte arrival times of the (single) trickled frame
+            let pieces: Vec<(u64, bool)> = ix.sent.iter().filter(|s| s.conn == conn && !matches!(s.pkt, Some(Pkt::Connect(_)))).filter_map(|s| s.delivered.map(|d| (t_of(d), s.pkt.is_some()))).collect();
+            let Some(first) = pieces.first().map(|p| p.0) else { return };
+            let completed = pieces.iter().find(|p| p.1).map(|p| p.0);
+            let last_byte = pieces.iter().map(|p| p.0).max().unwrap_or(first);
+            if let Some((sq, _, _)) = rd_stop {
+                let ts = t_of(*sq);
+                if completed.is_some_and(|c| c <= ts.saturating_sub(1000)) || ts < first {
+                    viol(v, "C20", format!("C20/read-timeout-without-partial-frame/{role}"), format!("read timeout at {ts} ms although no partial frame was pending (frame complete at {completed:?} ms)"), *sq);
+                }
+                if completed.is_some_and(|c| c + 1000 < first + timeout) {
+                    viol(v, "C20", format!("C20/fast-frame-timed-out/{role}"), format!("the frame was complete {} ms after its first byte (read timeout {timeout} ms), yet the connection was ended with a read timeout", completed.unwrap() - first), *sq);
+                }
+            }
+            // a frame that stalls for good must end the connection
+            // (timers run on a 1 s wheel: a period lasts up to timeout + 1 s; the period in which the last
+            // byte arrived may still be extended once, the following one detects the stall)
+            let bound = last_byte + 2 * (timeout + 1000) + 1000;
+            if completed.is_none() && end_ms > bound {
+                let ended = stop_ms.is_some_and(|s| s <= bound);
+                if !ended {
+                    // how much of the frame arrived: exactly its fixed header (type byte + remaining length)?
+                    let frame: Vec<&Sent> = ix.sent.iter().filter(|s| s.conn == conn && !matches!(s.pkt, Some(Pkt::Connect(_))) && s.delivered.is_some()).collect();
+                    let got: usize = frame.iter().map(|s| s.len).sum();
+                    let total: usize = out.plan.peer.script.iter().map(|s| s.bytes.len()).sum::<usize>().max(got);
+                    // The read timer only runs while undecoded bytes sit in the read buffer. The codecs consume
+                    // a complete fixed header, and a complete PUBLISH header (the payload is then streamed),
+                    // as soon as they arrive: a peer that stalls right there leaves nothing undecoded behind.
+                    let streaming = ix.pub_gates(conn).next().is_some();
+                    let what = if got == total - remaining_len(total) || streaming { "/all-delivered-bytes-consumed-by-codec" } else { "" };
+                    viol(v, "C20", format!("C20/stalled-frame-not-timed-out/{role}{what}"), format!("a partial frame ({got} of its bytes) received its last byte at {last_byte} ms and nothing since, read timeout {timeout} ms, run ended at {end_ms} ms with the connection up"), ix.last_seq);
+                } else if rd_stop.is_none() {
+                    viol(v, "C20", format!("C20/stalled-frame-wrong-reason/{role}"), format!("stalled frame: the connection ended with {:?}, not a read timeout", stop.map(|s| &s.2)), stop.map_or(0, |s| s.0));
+                }
+            }
+        }
+        "connect-timeout" => {
+            let ct = u64::from(out.plan.cfg.connect_timeout_s) * 1000;
+            let connect_done = ix.sent.iter().find(|s| s.conn == conn && matches!(s.pkt, Some(Pkt::Connect(_)))).and_then(|s| s.delivered).map(t_of);
+            let dropped = ix.conn_done.iter().find(|c| c.1 == conn);
+            let timed_out = dropped.is_some_and(|c| c.2.contains("Timeout"));
+            match connect_done {
+                Some(tc) if tc + 1000 <= ct => {
+                    if timed_out {
+                        viol(v, "C20", format!("C20/connect-in-time-dropped/{role}"), format!("CONNECT was complete at {tc} ms, connect timeout {ct} ms, yet the connection was dropped for a handshake timeout"), dropped.map_or(0, |c| c.0));
+                    }
+                }
+                Some(tc) if tc <= ct + 1000 => {} // on the edge of the grid: either outcome
+                _ => {
+                    // CONNECT late or never
+                    if end_ms > ct + 2500 {
+                        let t_drop = dropped.map(|c| t_of(c.0));
+                        if !t_drop.is_some_and(|t| t <= ct + 2000) {
+                            viol(v, "C20", format!("C20/connect-timeout-not-enforced/{role}"), format!("no complete CONNECT within {ct} ms, yet the connection was not dropped by {} ms (dropped at {t_drop:?})", ct + 2000), ix.last_seq);
+                        }
+                    }
+                }
+            }
+        }
+        "client-keepalive" => {
+            let ka = u64::from(out.plan.cfg.client_keepalive_s) * 1000;
+            let Some(t0) = session_ms else { return };
+            let alive_until = stop_ms.or_else(|| ix.conn_done.iter().find(|c| c.1 == conn).map(|c| t_of(c.0))).unwrap_or(end_ms).min(end_ms);
+            let mut pts: Vec<u64> = vec![t0];
+            pts.extend(ix.eps.iter().filter(|e| e.conn == conn && matches!(e.pkt, Pkt::PingReq)).map(|e| t_of(e.seq)));
+            pts.push(alive_until);
+            for w in pts.windows(2) {
+                if w[1] > w[0] + ka + 1100 {
+                    viol(v, "C20", format!("C20/client-ping-missing/{role}"), format!("client keep-alive {ka} ms: no PINGREQ written between {} ms and {} ms", w[0], w[1]), ix.last_seq);
+                    break;
+                }
+            }
+            if ka_stop.is_some() || rd_stop.is_some() {
+                viol(v, "C20", format!("C20/client-timer-ended-connection/{role}"), format!("client connection ended by a timer: {:?}", stop.map(|s| &s.2)), stop.map_or(0, |s| s.0));
+            }
+        }
+        _ => {}
+    }
+}
+
 // ------------------------------------------------------------------------------------------
 // C16: no well-formed sequence panics or hangs an endpoint
 
@@ -2146,6 +2300,9 @@ pub fn check_all(out: &RunOut) -> Vec<Violation> {
         }
         "C17" => {
             check_c17(&ix, &mut v);
+        }
+        "C20" => {
+            check_c20(&ix, &mut v);
         }
         "C15" => {
             check_c15(&ix, &mut v);
